@@ -76,6 +76,12 @@ def _fresh_array(n, what):
 
 
 def _shape_len(shape):
+    from ..interp import _Shape
+
+    if isinstance(shape, _Shape):  # x.shape / np.shape(x) of a 1-D array
+        if shape.desc is not None and shape.desc[0] == "np" and shape.desc[1] == 1:
+            return shape.desc[2]
+        raise Unsupported("numpy allocation with the shape of something else than a 1-D array")
     if isinstance(shape, tuple):
         if len(shape) != 1:
             raise Unsupported("numpy allocation with ndim != 1")
@@ -112,6 +118,15 @@ def np_zeros(it, a, k):
     return mk_vec("np", "a1", n, lambda i: zero, "fresh")
 
 
+def np_shape(it, a, k):
+    from ..interp import _Shape
+
+    x = a[0]
+    if not isinstance(x, Arr) or x.dialect != "np":
+        raise Unsupported("np.shape of something else than a numpy value")
+    return _Shape(A.shape_of(x))
+
+
 def np_rand(it, a, k):
     return _fresh_array(T.lift(a[0], T.INT), "rand")
 
@@ -131,6 +146,7 @@ def make_module():
     ns["full"] = Builtin("np.full", np_full)
     ns["zeros"] = Builtin("np.zeros", np_zeros)
     ns["zeros_like"] = Builtin("np.zeros_like", np_zeros_like)
+    ns["shape"] = Builtin("np.shape", np_shape)
     rnd = ModuleValue("numpy.random")
     rnd.ns["rand"] = Builtin("np.random.rand", np_rand)
     rnd.ns["randn"] = Builtin("np.random.randn", np_rand)
